@@ -502,6 +502,170 @@ def client_stream_scenario(exe, r, run, stats, idx):
             w.close(kill=True)
 
 
+WS_GUID = b"258EAFA5-E914-47DA-95CA-C5AB0DC85B11"
+
+
+def ws_server_reply(r, request):
+    """the HTTP answer of a (hostile) WebSocket server to the client's upgrade request:
+    returns (class, bytes, handshake_is_valid)"""
+    import base64
+    import hashlib
+    key = b""
+    for line in request.split(b"\r\n"):
+        if line.lower().startswith(b"sec-websocket-key:"):
+            key = line.split(b":", 1)[1].strip()
+    accept = base64.b64encode(hashlib.sha1(key + WS_GUID).digest())
+    status = b"HTTP/1.1 101 Switching Protocols"
+    hdrs = [b"Upgrade: websocket", b"Connection: Upgrade", b"Sec-WebSocket-Accept: " + accept,
+            b"Sec-WebSocket-Protocol: coap"]
+    y = r.random()
+    if y < 0.45:
+        return "valid", b"\r\n".join([status] + hdrs) + b"\r\n\r\n", True
+    if y < 0.65:
+        status = r.choice([b"HTTP/1.1", b"HTTP/1.1 ", b"HTTP/1.1\t", b"HTTP/1.1\t101", b"",
+                           b" ", b"HTTP/1.1 101", b"HTTP/1.1  101  x", b"HTTP/1.0 101 OK",
+                           b"HTTP/1.1 200 OK", b"HTTP/1.1 1010", b"HTTP/1.1 -101",
+                           b"HTTP/1.1 99999999999999999999", b"HTTP/1.1 101" + b" x" * 200,
+                           b"\x00HTTP/1.1 101", b"HTTP/1.1\x00 101", b"http/1.1 101 ok"])
+        return "status-line", b"\r\n".join([status] + hdrs) + b"\r\n\r\n", False
+    k = r.choice(["dup", "drop", "nocolon", "novalue", "badaccept", "long", "lf", "nul", "tab",
+                  "empty-name", "order", "noend"])
+    eol = b"\r\n"
+    if k == "dup":
+        hdrs.insert(r.randrange(len(hdrs)), r.choice(hdrs))
+    elif k == "drop":
+        hdrs.pop(r.randrange(len(hdrs)))
+    elif k == "nocolon":
+        i = r.randrange(len(hdrs))
+        hdrs[i] = hdrs[i].replace(b":", b"")
+    elif k == "novalue":
+        i = r.randrange(len(hdrs))
+        hdrs[i] = hdrs[i].split(b":")[0] + r.choice([b":", b": ", b":\t", b""])
+    elif k == "badaccept":
+        hdrs[2] = b"Sec-WebSocket-Accept: " + r.choice([b"", accept[:-1], accept + b"=",
+                                                        accept * 3, b"A" * 300])
+    elif k == "long":
+        hdrs.insert(r.randrange(len(hdrs)), b"X-Long: " + b"v" * r.choice([60, 99, 100, 101, 250,
+                                                                           1000, 5000]))
+    elif k == "lf":
+        eol = b"\n"
+    elif k == "nul":
+        i = r.randrange(len(hdrs))
+        c = r.randrange(len(hdrs[i]))
+        hdrs[i] = hdrs[i][:c] + b"\x00" + hdrs[i][c:]
+    elif k == "tab":
+        hdrs = [h.replace(b": ", b":\t", 1) for h in hdrs]
+    elif k == "empty-name":
+        hdrs.insert(r.randrange(len(hdrs)), r.choice([b": x", b" : x", b":", b" "]))
+    elif k == "order":
+        r.shuffle(hdrs)
+    out = eol.join([status] + hdrs) + (b"" if k == "noend" else eol + eol)
+    return "header-" + k, out, k in ("order", "tab")
+
+
+def ws_hostile_frames(r):
+    """frames a WebSocket server may throw at a client (server frames are unmasked)"""
+    out = []
+    classes = set()
+    msgs = [cw.msg(0xE1)] + c05.gen_stream_messages(r, "client")
+    for m in msgs:
+        y = r.random()
+        if y < 0.35:
+            body, k = cw.encode(m, "ws"), "valid"
+        elif y < 0.7:
+            k, body = gen.mutate(r, m, "ws")
+        else:
+            body, k = gen.blind(r, "ws", maxlen=200), "blind"
+        z = r.random()
+        if z < 0.55:
+            fr = cw.ws_frame(body)
+        elif z < 0.62:
+            fr, k = cw.ws_frame(body, mask=bytes(r.getrandbits(8) for _ in range(4))), "masked"
+        elif z < 0.7:
+            fr, k = cw.ws_frame(body, opcode=r.choice([0, 1, 3, 9, 10, 15])), "opcode"
+        elif z < 0.78:
+            fr, k = cw.ws_frame(body, fin=False), "fin0"
+        elif z < 0.86:
+            # a Close frame with 0, 1, 2 or more bytes of data
+            fr, k = cw.ws_frame(body[:r.choice([0, 1, 2, 3, 40])], opcode=8), "close"
+        else:
+            # lying length: declares far more (or the 64-bit form) than the buffer takes
+            n = r.choice([1473, 2000, 65535, 65536, 2 ** 31, 2 ** 63, 2 ** 64 - 1])
+            hdr = bytes([0x82, 126]) + n.to_bytes(2, "big") if n < 65536 else \
+                bytes([0x82, 127]) + n.to_bytes(8, "big")
+            fr, k = hdr + body + bytes(r.getrandbits(8) for _ in range(r.choice([0, 30, 300]))), \
+                "oversize"
+        out.append(fr)
+        classes.add(("client-ws", k))
+    return b"".join(out), classes
+
+
+def ws_client_scenario(exe, r, run, stats, idx):
+    """a hostile WebSocket server: answers to a client's upgrade request, then frames"""
+    w = new_world(exe, r.getrandbits(30))
+    wit = {"kind": "client-ws", "scenario_seed": idx, "script": w.script}
+    try:
+        w.cmd("log %d" % r.choice([0, 7, 8]))
+        w.cmd("node 0")
+        w.cmd("node 1")
+        w.cmd("ep 1 udp %s" % SRV)
+        w.cmd("res 1 %s body=fixed:%s" % (b"r".hex(), BODY.hex()))
+        sim = world.Sim(w, latency=1)
+        sim.nodes = [0, 1]
+        evs = sim.cmd("sess 0 0 ws 10.0.88.8:80")
+        conn = [e["conn"] for e in evs if e["e"] == "tcp_connect"]
+        reqb = b"".join(bytes.fromhex(e["b"]) for e in evs if e["e"] == "swrite")
+        if not conn or not reqb:
+            return None
+        if r.random() < 0.5:
+            sim.cmd("send 0 0 type=0 code=1 token=d1 opts=11=72")
+        klass, reply, valid = ws_server_reply(r, reqb)
+        classes = {("client-ws", klass)}
+        data = reply
+        if valid or r.random() < 0.3:
+            fr, cl = ws_hostile_frames(r)
+            data += fr
+            classes |= cl
+        pos = 0
+        while pos < len(data):
+            n = r.choice([1, 2, 5, 30, 300, len(data)])
+            evs = sim.cmd("stream %d 1 %s" % (conn[0], data[pos:pos + n].hex()))
+            pos += n
+            if any(e["e"] == "closed" for e in evs):
+                break
+        if r.random() < 0.3:
+            sim.cmd("stream_close %d 1" % conn[0])
+        stats["hostile_stream_bytes"] += pos
+        stats["ws_client_scenarios"] = stats.get("ws_client_scenarios", 0) + 1
+        if any(e["e"] == "event" and e.get("code") == 0x7002 for e in sim.log):
+            stats["ws_client_established"] = stats.get("ws_client_established", 0) + 1
+        sim.run(until=sim.elapsed() + 200000, quiesce=False)
+        sim.cmd("sess 0 1 udp %s" % SRV)
+        sim.cmd("send 0 1 type=0 code=1 token=ca05 opts=11=72")
+        sim.run(until=sim.elapsed() + 5000, quiesce=False)
+        stats["canaries"] += 1
+        ok = [e for e in sim.log if e["e"] == "rsp" and e.get("n") == 0 and e["tok"] == "ca05"
+              and e["code"] == 69 and e.get("phex") == BODY.hex()]
+        if not ok:
+            run.violation("canary-failed/client-after-hostile-websocket-server",
+                          dict(wit, classes=sorted(classes)),
+                          "after a hostile WebSocket server the client context could not "
+                          "complete a GET on a fresh session")
+        evs, rc, err = w.close()
+        if rc not in (0, None):
+            s = common.sanitizer_signature(err) or common.valgrind_signature(err) or ("exit-rc%s" % rc)
+            run.violation("client-ws/teardown/%s" % s, dict(wit, stderr=err[-3000:]),
+                          err[-1500:])
+        stats["scenarios"] += 1
+        return classes
+    except world.WorldCrash as e:
+        wit["script"] = w.script[-150:]
+        world.crash_violation(run, "client-ws", e, wit)
+    finally:
+        if not w.closed:
+            w.close(kill=True)
+
+
 def work(job):
     exe, seeds, tier, memcheck = job
     MODE["memcheck"] = memcheck
@@ -520,8 +684,10 @@ def work(job):
             cl = udp_scenario(exe, r, run, stats, sd)
         elif k < 9:
             cl = stream_scenario(exe, r, run, stats, sd)
-        else:
+        elif sd % 20 == 9:
             cl = client_stream_scenario(exe, r, run, stats, sd)
+        else:
+            cl = ws_client_scenario(exe, r, run, stats, sd)
         seen |= set(cl or ())
     return stats, seen, run.export()
 
@@ -538,7 +704,9 @@ def main(tier):
                 "virtual-time jumps up to 400 s in between; hostile TCP and WebSocket streams "
                 "(valid/mutated handshake, mutated and blind messages, lying length forms, "
                 "frame opcodes, unmasked frames) cut into random reads on several connections; "
-                "hostile responses on a client TCP session.  Oracles: ASan/UBSan silent, no abort, "
+                "hostile responses on a client TCP session; a hostile WebSocket server (mutated "
+                "status line and headers of the upgrade answer, then unmasked/masked frames, bad "
+                "opcodes, FIN=0, Close frames with 0..n data bytes, lying lengths).  Oracles: ASan/UBSan silent, no abort, "
                 "no hang (step budget + watchdog); a datagram the library's own parser rejects "
                 "runs no request/response/ping/pong handler and draws at most one reply; canary "
                 "GETs afterwards (fresh peer, abused client session, fresh TCP connection) are "
@@ -575,4 +743,6 @@ def main(tier):
     run.require("canaries", tot.get("canaries", 0), 300)
     run.require("hostile_stream_bytes", tot.get("hostile_stream_bytes", 0), 20000)
     run.require("memcheck_scenarios", tot.get("memcheck_scenarios", 0), 60)
+    run.require("ws_client_scenarios", tot.get("ws_client_scenarios", 0), 100)
+    run.require("ws_client_established", tot.get("ws_client_established", 0), 30)
     return run.finish()
